@@ -609,6 +609,21 @@ public:
       J.attribute("line", lineOf(FD->getLocation()));
       J.attribute("endline", lineOf(FD->getBody()->getEndLoc()));
       J.attribute("static", FD->getStorageClass() == SC_Static);
+      {
+        // declared in a header => callable from other modules / the application
+        bool inHdr = false, inApi = false;
+        for (const FunctionDecl *R : FD->redecls()) {
+          llvm::StringRef F = SM.getFilename(SM.getExpansionLoc(R->getLocation()));
+          if (F.endswith(".h")) {
+            inHdr = true;
+            // public interface headers of the three libraries: matrixsslApi.h, cryptoApi.h, coreApi.h, ...
+            if (llvm::sys::path::filename(F).contains("Api"))
+              inApi = true;
+          }
+        }
+        J.attribute("hdr", inHdr);
+        J.attribute("api", inApi);
+      }
       J.attribute("inline", FD->isInlineSpecified());
       J.attribute("ret", tyStr(FD->getReturnType()));
       J.attribute("variadic", FD->isVariadic());
